@@ -1150,3 +1150,310 @@ Definition ex_s2 : ev := mkEv 0 [123; 34; 109; 115; 103; 34; 58; 34; 115; 101; 9
 Definition ex_s3 : ev := mkEv 0 [123; 34; 109; 115; 103; 34; 58; 34; 116; 104; 105; 114; 100; 34; 44; 34; 115; 101; 114; 118; 105; 99; 101; 34; 58; 34; 99; 34; 125]%N [] [] [] None [None; Some (OV [34; 99; 34]%N); Some (OV [34; 116; 104; 105; 114; 100; 34]%N)].
 Lemma ex_scfg_ok : Forall cp_ok ex_scfg.
 Proof. repeat constructor; unfold cp_ok; cbn; try discriminate; intros _; reflexivity. Qed.
+
+(* ==========================================================================================
+   11. splunk envelopes are valid JSON documents, and the body of a batch is cut into exactly them
+   ========================================================================================== *)
+(* the automaton only looks at the top of its stack: a run that succeeds on a stack succeeds on
+   every extension of that stack, with the same states *)
+Lemma jstep_frame base st s c st' s' :
+  jstep (st, s) c = Some (st', s') -> jstep (st, s ++ base) c = Some (st', s' ++ base).
+Proof.
+  unfold jstep, j_val, j_end.
+  destruct st; intros H;
+  repeat match type of H with
+         | context [if ?b then _ else _] => destruct b
+         | context [match ?l with [] => _ | _ :: _ => _ end] => destruct l
+         | context [match ?x with CObj => _ | CArr => _ end] => destruct x
+         | context [match ?n with O => _ | S _ => _ end] => destruct n
+         end;
+  try discriminate; try (injection H as <- <-; reflexivity).
+Qed.
+
+Lemma jrun_frame base : forall l st s st' s',
+  jrun (st, s) l = Some (st', s') -> jrun (st, s ++ base) l = Some (st', s' ++ base).
+Proof.
+  induction l as [|c l IH]; intros st s st' s' H; cbn [jrun] in *.
+  - injection H as <- <-. reflexivity.
+  - destruct (jstep (st, s) c) as [[st1 s1]|] eqn:E; [|discriminate].
+    rewrite (jstep_frame base _ _ _ _ _ E). apply IH, H.
+Qed.
+
+(* states in which a JSON value is complete: the next byte is a separator *)
+Definition term_state (st : jst) : bool :=
+  match st with JEnd | JZero | JInt | JFrac | JExpDig => true | _ => false end.
+
+(* a byte sequence that is one JSON value wherever a value is expected *)
+Definition value_ok (d : bytes) : Prop :=
+  forall stk, exists st, jrun (JVal, stk) d = Some (st, stk) /\ term_state st = true.
+
+Lemma json_valid_value_ok d : json_valid d = true -> value_ok d.
+Proof.
+  unfold json_valid. intros H stk.
+  destruct (jrun (JVal, []) d) as [[st s]|] eqn:E; [|discriminate].
+  assert (s = [] /\ term_state st = true) as [-> Ht].
+  { destruct st; cbn in H; try discriminate; destruct s; try discriminate; split; reflexivity. }
+  exists st. split; [|exact Ht]. apply (jrun_frame stk) in E. exact E.
+Qed.
+
+Lemma term_comma st stk : term_state st = true -> jstep (st, CObj :: stk) 44%N = Some (JKey, CObj :: stk).
+Proof. destruct st; try discriminate; reflexivity. Qed.
+Lemma term_close st stk : term_state st = true -> jstep (st, CObj :: stk) 125%N = Some (JEnd, stk).
+Proof. destruct st; try discriminate; reflexivity. Qed.
+
+(* a JSON string literal with a string-safe body *)
+Definition lit_ok (esc : bytes) : Prop := exists body, esc = QUOTE :: body ++ [QUOTE] /\ str_body_ok body = true.
+
+Lemma jrun_key esc stk st0 : lit_ok esc -> (st0 = JKey \/ st0 = JKeyOrEnd) ->
+  jrun (st0, stk) (esc ++ [58]%N) = Some (JVal, stk).
+Proof.
+  intros (body & -> & Hb) Hst. cbn [app].
+  assert (E : jstep (st0, stk) QUOTE = Some (JStr true, stk)) by (destruct Hst as [-> | ->]; reflexivity).
+  cbn [jrun]. rewrite E. rewrite <- app_assoc.
+  apply (jrun_seq _ _ _ (JStr true, stk)); [apply jrun_str_body, Hb|]. reflexivity.
+Qed.
+
+(* well-formed oracle trees: leaves are JSON documents, key literals are string literals *)
+Fixpoint owf (v : oval) : Prop :=
+  match v with
+  | OV r => json_valid r = true
+  | OO fs => (fix go (fs : list ofield) : Prop :=
+                match fs with
+                | [] => True
+                | (_, esc, x) :: r => lit_ok esc /\ owf x /\ go r
+                end) fs
+  end.
+Definition fields_wf (fs : list ofield) : Prop := owf (OO fs).
+
+Lemma fields_wf_cons k esc x r : fields_wf ((k, esc, x) :: r) <-> lit_ok esc /\ owf x /\ fields_wf r.
+Proof. reflexivity. Qed.
+
+Fixpoint odepth (v : oval) : nat :=
+  match v with
+  | OV _ => O
+  | OO fs => S ((fix go (fs : list ofield) : nat :=
+                   match fs with [] => O | (_, _, x) :: r => Nat.max (odepth x) (go r) end) fs)
+  end.
+Definition fields_depth (fs : list ofield) : nat :=
+  (fix go (fs : list ofield) : nat := match fs with [] => O | (_, _, x) :: r => Nat.max (odepth x) (go r) end) fs.
+Lemma odepth_OO fs : odepth (OO fs) = S (fields_depth fs).
+Proof. reflexivity. Qed.
+Lemma fields_depth_cons k esc x r : fields_depth ((k, esc, x) :: r) = Nat.max (odepth x) (fields_depth r).
+Proof. reflexivity. Qed.
+
+(* the tail of an object's encoding after a field value *)
+Definition ogo := (fix go (fs : list ofield) (first : bool) : bytes :=
+                  match fs with
+                  | [] => [125]%N
+                  | (_, esc, x) :: r => (if first then [] else [44]%N) ++ esc ++ 58%N :: oenc x ++ go r false
+                  end).
+Lemma oenc_OO fs : oenc (OO fs) = 123%N :: ogo fs true.
+Proof. reflexivity. Qed.
+Lemma ogo_cons k esc x r first :
+  ogo ((k, esc, x) :: r) first = (if first then [] else [44]%N) ++ (esc ++ [58]%N) ++ oenc x ++ ogo r false.
+Proof. cbn [ogo]. rewrite <- !app_assoc. reflexivity. Qed.
+
+Lemma oenc_value_ok : forall n v, (odepth v <= n)%nat -> owf v -> value_ok (oenc v).
+Proof.
+  induction n as [|n IH]; intros v Hd Hw.
+  - destruct v as [r|fs]; [apply json_valid_value_ok, Hw|]. rewrite odepth_OO in Hd. lia.
+  - destruct v as [r|fs]; [apply json_valid_value_ok, Hw|].
+    rewrite odepth_OO in Hd. apply le_S_n in Hd. fold (fields_wf fs) in Hw.
+    (* the rest of the fields, from the state after a value *)
+    assert (Hrest : forall fs, (fields_depth fs <= n)%nat -> fields_wf fs -> forall st stk, term_state st = true ->
+              jrun (st, CObj :: stk) (ogo fs false) = Some (JEnd, stk)).
+    { clear fs Hd Hw. induction fs as [|[[k esc] x] r IHr]; intros Hd Hw st stk Ht.
+      - cbn [ogo jrun]. rewrite (term_close st stk Ht). reflexivity.
+      - rewrite fields_depth_cons in Hd. apply (proj1 (fields_wf_cons _ _ _ _)) in Hw. destruct Hw as (Hl & Hx & Hr).
+        rewrite ogo_cons. cbn [app jrun]. rewrite (term_comma st stk Ht).
+        apply (jrun_seq _ _ _ (JVal, CObj :: stk)); [apply jrun_key; auto|].
+        destruct (IH x ltac:(lia) Hx (CObj :: stk)) as (st1 & E1 & T1).
+        apply (jrun_seq _ _ _ (st1, CObj :: stk)); [exact E1|].
+        apply IHr; [lia|exact Hr|exact T1]. }
+    intro stk. exists JEnd. split; [|reflexivity]. rewrite oenc_OO. cbn [jrun jstep]. 
+    change (jstep (JVal, stk) 123%N) with (Some (JKeyOrEnd, CObj :: stk)).
+    destruct fs as [|[[k esc] x] r].
+    + reflexivity.
+    + rewrite fields_depth_cons in Hd. apply (proj1 (fields_wf_cons _ _ _ _)) in Hw. destruct Hw as (Hl & Hx & Hr).
+      rewrite ogo_cons. cbn [app].
+      apply (jrun_seq _ _ _ (JVal, CObj :: stk)); [apply jrun_key; auto|].
+      destruct (IH x ltac:(lia) Hx (CObj :: stk)) as (st1 & E1 & T1).
+      apply (jrun_seq _ _ _ (st1, CObj :: stk)); [exact E1|].
+      apply Hrest; [lia|exact Hr|exact T1].
+Qed.
+
+Lemma value_ok_json_valid d : value_ok d -> json_valid d = true.
+Proof.
+  intro H. destruct (H []) as (st & E & T). unfold json_valid. rewrite E.
+  destruct st; try discriminate; reflexivity.
+Qed.
+
+Definition opt_wf (o : option oval) : Prop := match o with Some x => owf x | None => True end.
+
+Lemma fields_of_wf o : opt_wf o -> fields_wf (fields_of o).
+Proof. destruct o as [[r|fs]|]; intro H; try exact I. exact H. Qed.
+
+Lemma upsert_wf k esc f : lit_ok esc -> (forall o, opt_wf o -> owf (f o)) ->
+  forall fs, fields_wf fs -> fields_wf (upsert k esc f fs).
+Proof.
+  intros Hl Hf. induction fs as [|[[k' e'] x] r IH]; intro Hw; cbn [upsert].
+  - apply fields_wf_cons. split; [exact Hl|]. split; [apply Hf; exact I|exact I].
+  - apply (proj1 (fields_wf_cons _ _ _ _)) in Hw. destruct Hw as (Hl' & Hx & Hr).
+    destruct (bytes_eqb k' k); apply fields_wf_cons.
+    + split; [exact Hl'|]. split; [apply Hf; exact Hx|exact Hr].
+    + split; [exact Hl'|]. split; [exact Hx|apply IH, Hr].
+Qed.
+
+Lemma set_path_wf v : owf v -> forall path, Forall (fun p => lit_ok (snd p)) path ->
+  forall fs, fields_wf fs -> fields_wf (set_path path v fs).
+Proof.
+  intro Hv. induction path as [|[k esc] rest IH]; intros Hp fs Hw; cbn [set_path]; [exact Hw|].
+  inversion Hp as [|? ? Hl Hrest]; subst. cbn [snd] in Hl.
+  destruct rest as [|q rest'].
+  - apply upsert_wf; [exact Hl| |exact Hw]. intros o _. exact Hv.
+  - apply upsert_wf; [exact Hl| |exact Hw]. intros o Ho.
+    change (fields_wf (set_path (q :: rest') v (fields_of o))). apply IH; [exact Hrest|apply fields_of_wf, Ho].
+Qed.
+
+(* a configuration whose target key literals are JSON string literals (the harness takes them from
+   insane-json's escaper; hypothesis esc_safe, checked on every run) *)
+Definition cp_lits_ok (c : cp_entry) : Prop := Forall (fun p => lit_ok (snd p)) (cp_to c).
+
+Lemma apply_copies_wf cfg : Forall cp_lits_ok cfg -> forall vals fs,
+  Forall opt_wf vals -> fields_wf fs -> fields_wf (apply_copies cfg vals fs).
+Proof.
+  induction 1 as [|c cfg Hc _ IH]; intros vals fs Hv Hw; cbn [apply_copies]; [exact Hw|].
+  assert (Htl : Forall opt_wf (tl vals)) by (destruct vals; [constructor|inversion Hv; assumption]).
+  apply IH; [exact Htl|].
+  destruct (splunk_keep (cp_to_raw c)); [|exact Hw].
+  destruct vals as [|[x|] vs]; try exact Hw.
+  inversion Hv as [|? ? Hx _]; subst. apply set_path_wf; [exact Hx|exact Hc|exact Hw].
+Qed.
+
+Lemma event_lit_ok : lit_ok EVENT_ESC.
+Proof. exists EVENT_KEY. split; reflexivity. Qed.
+
+(* the envelope of an event is one valid JSON document (an object), whatever the configuration copies
+   where, as long as the event's encoding and the copied values are JSON documents (oracle hypotheses
+   enc_valid / copy_faithful) and the key literals are string literals *)
+Theorem envelope_valid cfg e :
+  Forall cp_lits_ok cfg -> json_valid (enc e) = true -> Forall opt_wf (ev_copy e) ->
+  json_valid (envelope cfg e) = true /\ exists rest, envelope cfg e = 123%N :: rest.
+Proof.
+  intros Hc He Hv. split; [|eexists; unfold envelope; rewrite oenc_OO; reflexivity].
+  apply value_ok_json_valid. unfold envelope. eapply oenc_value_ok; [apply le_n|].
+  change (fields_wf (apply_copies cfg (ev_copy e) [(EVENT_KEY, EVENT_ESC, OV (enc e))])).
+  apply apply_copies_wf; [exact Hc|exact Hv|].
+  apply fields_wf_cons. split; [exact event_lit_ok|]. split; [exact He|exact I].
+Qed.
+
+(* ---- cutting a row of envelopes: split_docs finds exactly the envelopes ---------------------- *)
+(* a run that succeeds on its own stack never brings the automaton to depth 0 when it happens above a
+   non-empty base: split_docs does not cut inside it *)
+Lemma split_docs_lift b base : forall l st s st' s' rc rest,
+  jrun (st, s) l = Some (st', s') ->
+  split_docs (st, s ++ b :: base) rc (l ++ rest) = split_docs (st', s' ++ b :: base) (rev_append l rc) rest.
+Proof.
+  induction l as [|c l IH]; intros st s st' s' rc rest H; cbn [jrun] in H.
+  - injection H as <- <-. reflexivity.
+  - destruct (jstep (st, s) c) as [[st1 s1]|] eqn:E; [|discriminate].
+    cbn [app split_docs rev_append]. rewrite (jstep_frame (b :: base) _ _ _ _ _ E).
+    rewrite <- (IH _ _ _ _ (c :: rc) rest H).
+    destruct st1; try reflexivity. destruct s1; reflexivity.
+Qed.
+
+Lemma split_docs_step st stk c st' b stk' rc l :
+  jstep (st, stk) c = Some (st', b :: stk') ->
+  split_docs (st, stk) rc (c :: l) = split_docs (st', b :: stk') (c :: rc) l.
+Proof. intro E. cbn [split_docs]. rewrite E. destruct st'; reflexivity. Qed.
+
+Lemma ogo_cons_rest k esc x r first rest :
+  ogo ((k, esc, x) :: r) first ++ rest
+  = (if first then [] else [44]%N) ++ (esc ++ [58]%N) ++ oenc x ++ (ogo r false ++ rest).
+Proof. rewrite ogo_cons. repeat rewrite <- app_assoc. reflexivity. Qed.
+
+Lemma split_fields_rest : forall fs, fields_wf fs -> forall st rc rest, term_state st = true ->
+  split_docs (st, [CObj]) rc (ogo fs false ++ rest)
+  = match split_docs (JVal, []) [] rest with
+    | Some ds => Some ((rev rc ++ ogo fs false) :: ds)
+    | None => None
+    end.
+Proof.
+  induction fs as [|[[k esc] x] r IH]; intros Hw st rc rest Ht.
+  - cbn [ogo app split_docs]. rewrite (term_close st [] Ht).
+    destruct (split_docs (JVal, []) [] rest); [|reflexivity].
+    unfold rev_fast. rewrite rev_append_rev, app_nil_r. cbn [rev]. reflexivity.
+  - apply (proj1 (fields_wf_cons _ _ _ _)) in Hw. destruct Hw as (Hl & Hx & Hr).
+    rewrite ogo_cons_rest. cbn [app]. rewrite (split_docs_step _ _ _ JKey CObj []) by (apply term_comma, Ht).
+    rewrite (split_docs_lift CObj [] _ JKey [] JVal []) by (apply jrun_key; auto).
+    destruct (oenc_value_ok _ x (le_n _) Hx []) as (st1 & E1 & T1).
+    rewrite (split_docs_lift CObj [] _ JVal [] st1 [] _ _ E1). cbn [app].
+    rewrite (IH Hr st1 _ rest T1).
+    destruct (split_docs (JVal, []) [] rest); [|reflexivity].
+    rewrite !rev_append_rev, !rev_app_distr, !rev_involutive. cbn [rev app]. rewrite <- !app_assoc. reflexivity.
+Qed.
+
+Lemma split_object fs rest : fields_wf fs ->
+  split_docs (JVal, []) [] (oenc (OO fs) ++ rest)
+  = match split_docs (JVal, []) [] rest with
+    | Some ds => Some (oenc (OO fs) :: ds)
+    | None => None
+    end.
+Proof.
+  intro Hw. rewrite oenc_OO. cbn [app].
+  rewrite (split_docs_step _ _ _ JKeyOrEnd CObj []) by reflexivity.
+  destruct fs as [|[[k esc] x] r].
+  - cbn [ogo app split_docs jstep]. destruct (split_docs (JVal, []) [] rest); reflexivity.
+  - apply (proj1 (fields_wf_cons _ _ _ _)) in Hw. destruct Hw as (Hl & Hx & Hr).
+    rewrite ogo_cons_rest. cbn [app].
+    rewrite (split_docs_lift CObj [] _ JKeyOrEnd [] JVal []) by (apply jrun_key; auto).
+    destruct (oenc_value_ok _ x (le_n _) Hx []) as (st1 & E1 & T1).
+    rewrite (split_docs_lift CObj [] _ JVal [] st1 [] _ _ E1). cbn [app].
+    rewrite (split_fields_rest r Hr st1 _ rest T1).
+    destruct (split_docs (JVal, []) [] rest); [|reflexivity].
+    rewrite !rev_append_rev, !rev_app_distr, !rev_involutive. cbn [rev app]. rewrite <- !app_assoc. reflexivity.
+Qed.
+
+Definition ev_copy_ok (e : ev) : Prop := json_valid (enc e) = true /\ Forall opt_wf (ev_copy e).
+
+(* the request body of a batch is cut by the predicate's own cutter into exactly the envelopes of
+   the deliverable events: one document per event, in order, nothing else *)
+Theorem splunk_payload_docs cfg batch prev script :
+  Forall cp_lits_ok cfg -> Forall ev_copy_ok (deliverable batch) ->
+  exists a, splunk_out cfg batch prev script = Ok a
+    /\ (forall cfgsx, splunk_cfg_of_sx cfgsx = Some cfg ->
+        Forall (fun q => docs_of_body 4 cfgsx (rq_body q) = Some (expected_docs 4 cfgsx batch)) (at_reqs a))
+    /\ Forall (fun d => json_valid d = true) (map (envelope cfg) (deliverable batch)).
+Proof.
+  intros Hc He. destruct (splunk_out_spec cfg batch prev script) as (a & E & _ & R).
+  exists a. split; [exact E|].
+  assert (Hs : forall evs, Forall ev_copy_ok evs ->
+            split_docs (JVal, []) [] (concat (map (envelope cfg) evs)) = Some (map (envelope cfg) evs)).
+  { induction evs as [|e r IH]; intro H; [reflexivity|].
+    inversion H as [|? ? (H1 & H2) Hr]; subst. cbn [map concat]. unfold envelope at 1.
+    rewrite split_object.
+    - rewrite (IH Hr). reflexivity.
+    - apply apply_copies_wf; [exact Hc|exact H2|].
+      apply fields_wf_cons. split; [exact event_lit_ok|]. split; [exact H1|exact I]. }
+  split.
+  - intros cfgsx Hcfg. destruct (at_reqs a) as [|q [|q2 qs]]; try discriminate. injection R as R.
+    constructor; [|constructor]. unfold expected_docs. rewrite Hcfg. cbn [docs_of_body]. rewrite R. apply Hs, He.
+  - apply Forall_forall. intros d Hin. apply in_map_iff in Hin. destruct Hin as (e & <- & Hin).
+    rewrite Forall_forall in He. destruct (He e Hin) as (H1 & H2). apply envelope_valid; assumption.
+Qed.
+
+(* the hypotheses hold of the splunk instance *)
+Lemma lit_ok_intro body : str_body_ok body = true -> lit_ok (QUOTE :: body ++ [QUOTE]).
+Proof. intro H. exists body. split; [reflexivity|exact H]. Qed.
+
+Lemma ex_scopy_ok : Forall cp_lits_ok ex_scfg /\ Forall ev_copy_ok [ex_s1; ex_s2; ex_s3].
+Proof.
+  split.
+  - repeat constructor; cbn [cp_to snd].
+    + exact (lit_ok_intro [116; 105; 109; 101]%N eq_refl).
+    + exact (lit_ok_intro [102; 105; 101; 108; 100; 115]%N eq_refl).
+    + exact (lit_ok_intro [115; 101; 114; 118; 105; 99; 101; 95; 110; 97; 109; 101]%N eq_refl).
+    + exact (lit_ok_intro [101; 118; 101; 110; 116]%N eq_refl).
+    + exact (lit_ok_intro [120]%N eq_refl).
+  - repeat constructor; cbn; reflexivity.
+Qed.
